@@ -25,6 +25,20 @@ MUTANTS = [
     ('c20-init-single-feature', 'malt/core/converter.py',
      'optional_features = (optional_features,)', 'optional_features = ()',
      ['malt.core.converter.ConversionOptions.__init__']),
+    ('c20-embed-toplevel-widened', 'malt/converters/functions.py',
+     '    if fn_scope.level == 2:\n      return self.ctx.user.options', '    if fn_scope.level <= 3:\n      return self.ctx.user.options',
+     ['malt.converters.functions.FunctionTransformer.visit_FunctionDef']),
+    ('c20-embed-nested-gets-requested-options', 'malt/converters/functions.py',
+     '    return self.ctx.user.options.call_options()', '    return self.ctx.user.options',
+     ['malt.converters.functions.FunctionTransformer.visit_FunctionDef', 'malt.converters.functions.FunctionTransformer.visit_Lambda']),
+    ('c20-embed-lambda-standard-options', 'malt/converters/functions.py',
+     '''          template,
+          options=self._function_scope_options(fn_scope).to_ast(),''', '''          template,
+          options=converter.STANDARD_OPTIONS.to_ast(),''',
+     ['malt.converters.functions.FunctionTransformer.visit_Lambda']),
+    ('c20-embed-harmless-guard-respelled', 'malt/converters/functions.py',
+     '      if fn_scope.level <= 2:', '      if not fn_scope.level > 2:',
+     ['ok:malt.converters.functions.FunctionTransformer.visit_FunctionDef']),
     ('c16-exit-guard-swapped', 'malt/operators/function_wrappers.py',
      '''  def __exit__(self, exc_type, exc_val, exc_tb):
     if self.options.user_requested:''', '''  def __exit__(self, exc_type, exc_val, exc_tb):
